@@ -32,6 +32,18 @@ def gen(rng, ctx):
     stats = {}
     neg = rng.choice(NEG) if rng.random() < 0.12 else None
     nl = N.gen_netlist(rng, "full", max_stmts=10 if not big else 14, max_inputs=5 if not big else 6, depth=4 if not big else 5, lookalike=0.3, escaped=0.15, stats=stats)
+    if rng.random() < 0.05 and "renamed" not in nl:
+        # identifiers that contain a keyword the module extraction looks for
+        cands = [w for w in nl["wires"] + nl["outputs"] + nl["inputs"] if not w.startswith("\\")]
+        m = {}
+        for w in rng.sample(cands, min(len(cands), rng.randint(1, 2))):
+            nn = rng.choice(["n_endmodule", "endmodule_1", "xendmodulex", "endmodule$", "ENDMODULE", "module_a", "a_module", "endmodul"])
+            if nn not in m.values() and nn not in cands:
+                m[w] = nn
+        if m:
+            nl = N.rename_nets(nl, m)
+            nl["renamed"] = sorted(m.values())
+            nl["keywordlike"] = True
     dup = False
     if neg is None and rng.random() < 0.03:
         # parity operator / gate listing the same net twice (known finding C02-duplicate-parity-operand)
@@ -93,6 +105,10 @@ def check(case, ctx):
         else:
             ctx.count(f"neg_exc:{type(c).__name__}")
         return
+    if nl.get("keywordlike"):
+        ctx.count("identifiers_containing_endmodule_or_module")
+    if "$" in nl["name"]:
+        ctx.count("module_name_with_dollar")
     if case.get("decoy"):
         ctx.count("decoy_module_" + case["decoy"])
         if re.search(r"module\s+" + re.escape(nl["name"]) + r"\b", text, re.I) and len(re.findall(r"module\s+" + re.escape(nl["name"]) + r"\b", text, re.I)) > len(re.findall(r"module\s+" + re.escape(nl["name"]) + r"\b", text)):
@@ -211,6 +227,6 @@ def gates(counters, table, tier):
     for op in ("and", "or", "xor", "xnor", "not"):
         if counters.get(f"expr:{op}", 0) < 50:
             out.append(f"operator {op} generated {counters.get(f'expr:{op}', 0)} times")
-    need = ["decoy_module_after", "decoy_module_before", "infer_module_name", "wrong_module_name", "expr:tern", "expr:repeated_subexpr", "multi_instance_statement", "pin:unconnected", "pin:omitted", "pin:net", "line_comments", "block_comments", "escaped_names", "lookalike_names", "expr:wide_chain", "expr:long_names", "crlf_line_endings", "no_final_newline", "multi_instance_blackbox_statement", "blackboxes_as:tuple", "blackboxes_as:set"] + [f"neg:{n}" for n in NEG]
+    need = ["decoy_module_after", "decoy_module_before", "infer_module_name", "wrong_module_name", "expr:tern", "expr:repeated_subexpr", "multi_instance_statement", "pin:unconnected", "pin:omitted", "pin:net", "line_comments", "block_comments", "escaped_names", "lookalike_names", "expr:wide_chain", "expr:long_names", "crlf_line_endings", "no_final_newline", "multi_instance_blackbox_statement", "blackboxes_as:tuple", "blackboxes_as:set", "identifiers_containing_endmodule_or_module", "module_name_with_dollar"] + [f"neg:{n}" for n in NEG]
     out += [f"{k} seen {counters.get(k, 0)} times" for k in need if counters.get(k, 0) < 3]
     return out
